@@ -3,6 +3,8 @@ package main
 // SMT script assembly and solver racing.
 
 import (
+	"os"
+	"sync/atomic"
 	"bytes"
 	"context"
 	"fmt"
@@ -159,8 +161,13 @@ func runSolver(ctx context.Context, sd solverDef, script string, timeoutMs int) 
 // solve races solver x script-variant combinations on one obligation. Variants withhold
 // definitions of opaque spec functions (weaker hypotheses), so unsat from any combination
 // is a proof; sat / models are taken from the full variant only.
+var scriptNanos int64
+
 func solve(P *Prog, o *Obligation, timeoutMs int, all bool) *Result {
+	tScript := time.Now()
+	defer func() {}()
 	full := o.script(P, true)
+	atomic.AddInt64(&scriptNanos, int64(time.Since(tScript)))
 	type job struct {
 		sd      solverDef
 		script  string
@@ -209,11 +216,13 @@ func solve(P *Prog, o *Obligation, timeoutMs int, all bool) *Result {
 	if all || o.Cover {
 		stage = func(job) int { return 0 }
 	}
+	stage1 := make(chan struct{}) // closed when every stage-0 job has answered inconclusively
 	launch := func(jb job, delay time.Duration) {
 		go func() {
 			if delay > 0 {
 				select {
 				case <-time.After(delay):
+				case <-stage1:
 				case <-ctx.Done():
 					ch <- ans{jb.sd.name, "cancelled", "", 0, jb.variant}
 					return
@@ -223,8 +232,10 @@ func solve(P *Prog, o *Obligation, timeoutMs int, all bool) *Result {
 			ch <- ans{jb.sd.name, v, out, ms, jb.variant}
 		}()
 	}
+	pending0 := 0
 	for _, jb := range jobs {
 		if stage(jb) == 0 {
+			pending0++
 			launch(jb, 0)
 		} else {
 			launch(jb, 2*time.Second)
@@ -232,8 +243,18 @@ func solve(P *Prog, o *Obligation, timeoutMs int, all bool) *Result {
 	}
 	res := &Result{Verdict: "unknown", Outputs: map[string]string{}}
 	var verdicts []string
+	stageOf := map[string]int{}
+	for _, jb := range jobs {
+		stageOf[fmt.Sprintf("%s/%d", jb.sd.name, jb.variant)] = stage(jb)
+	}
 	for i := 0; i < len(jobs); i++ {
 		a := <-ch
+		if stageOf[fmt.Sprintf("%s/%d", a.name, a.variant)] == 0 {
+			pending0--
+			if pending0 == 0 {
+				close(stage1)
+			}
+		}
 		tag := a.name
 		if a.variant != 0 {
 			tag = fmt.Sprintf("%s(hidden-defs:%d)", a.name, a.variant)
@@ -320,7 +341,11 @@ func solveAll(P *Prog, obls []*Obligation, timeoutMs int, all bool, workers int)
 					}
 					continue
 				}
+				tw := time.Now()
 				o.Result = solve(P, o, timeoutMs, all)
+				if os.Getenv("GOWP_PROF") != "" {
+					fmt.Fprintf(os.Stderr, "wall %v reported %dms %s %s\n", time.Since(tw).Round(time.Millisecond), o.Result.Ms, o.Result.Verdict, o.Name)
+				}
 			}
 		}()
 	}
